@@ -14,6 +14,9 @@ compared exhaustively on small patterns and small directory trees, on the real c
                            names whose two captured substrings are equal;
   R  reference matcher     on files, the recorded set is what a small backtracking matcher written from the property
                            accepts (`*` and names: no separator; `**` as a component: anything; repeated name: equal);
+  S  substitution is textual  an explicit substitution `*` records what the default records; where the name occurs once
+                           and touches no other wildcard, `${*n}` with substitution s records what the pattern with s
+                           written in its place records;
   E  incremental = rescan  extending / reducing a recorded set by added / deleted paths (will_change) gives the set a
                            fresh scan of the changed tree records, for every ordered pair of trees (which includes a
                            file replaced by a directory of the same name and back); will_change returns None iff the
@@ -192,6 +195,35 @@ def run_case(ng_mod, root, pattern, tree, subs=None):
             fails.append(dict(check="R reference matcher (files)", recorded_only=sorted(got_files - want_files),
                               expected_only=sorted(want_files - got_files)))
     names = list(ng_mod.iter_wildcard_names(pattern))
+    if subs:
+        # S: a substitution is textual.  An explicit `*` is the default, and (where the name occurs once and touches
+        # no other wildcard) the named wildcard with substitution s records what the pattern with s written in its
+        # place records.
+        if all(v == "*" for v in subs.values()):
+            try:
+                ng0 = NamedGlob(pattern)
+                ng0.glob()
+                rec0 = set(str(p) for p in ng0.files())
+                if rec0 != recorded:
+                    fails.append(dict(check="S explicit * is the default", subs=subs, with_subs_only=sorted(recorded - rec0),
+                                      default_only=sorted(rec0 - recorded)))
+            except ValueError:
+                pass
+        touching_s = re.search(r"(\*|\?|\]|\})(\$\{\*\w+\})|(\$\{\*\w+\})(\*|\?|\[|\$)", pattern) is not None
+        if len(names) == len(set(names)) and not touching_s:
+            written = re.sub(r"\$\{\*(\w+)\}", lambda mm: subs.get(mm.group(1), mm.group(0)), pattern)
+            try:
+                ng1 = NamedGlob(written)
+                ng1.glob()
+                # compared on files (whether a directory is recorded depends on how the last wildcard compiles: check B,
+                # findings F7 / F10)
+                rec1 = set(str(p) for p in ng1.files() if not str(p).endswith("/"))
+                recf = {p for p in recorded if not p.endswith("/")}
+                if rec1 != recf:
+                    fails.append(dict(check="S substitution is textual", subs=subs, written=written,
+                                      with_subs_only=sorted(recf - rec1), written_only=sorted(rec1 - recf)))
+            except ValueError:
+                pass
     # making a named wildcard anonymous next to another wildcard would build `**` or `*?`-style neighbours whose
     # standard meaning differs (recursive); the comparison with the standard glob is made where no wildcards touch
     touching = re.search(r"(\*|\?|\]|\})(\$\{\*\w+\})|(\$\{\*\w+\})(\*|\?|\[|\$)", pattern) is not None
@@ -228,6 +260,15 @@ def run_case(ng_mod, root, pattern, tree, subs=None):
             fails.append(dict(check="D repeated name = equal substrings", recorded_only=sorted(got - want),
                               expected_only=sorted(want - got)))
     return fails
+
+
+def subs_menu(pattern):
+    """Substitutions tried for a pattern with named wildcards: an explicit star for all names, and for the first name a
+    non-empty star and a character class."""
+    names = sorted(set(re.findall(r"\$\{\*(\w+)\}", pattern)))
+    if not names:
+        return []
+    return [{n: "*" for n in names}, {names[0]: "?*"}, {names[0]: "[ab]"}]
 
 
 def scan(ng_mod, pattern, root):
@@ -307,6 +348,10 @@ def _work(args):
                 for f in run_case(ng_mod, roots[k], p, t):
                     fails.append(dict(kind=kind_of(f, p), pattern=p, tree=sorted(t), **f))
                 n += 1
+                for subs in subs_menu(p):
+                    for f in run_case(ng_mod, roots[k], p, t, subs):
+                        fails.append(dict(kind=kind_of(f, p), pattern=p, tree=sorted(t), **f))
+                    n += 1
             if do_incremental:
                 scans = [scan(ng_mod, p, r) for r in roots]
                 if scans[0] is not None:
@@ -329,7 +374,7 @@ def _work(args):
 @bounded("compilers_and_filesystem", props=["C17"],
          bound="patterns of up to 3 (quick) / 4 (thorough) tokens over {a . / * ? [ab] ** ${*n} ${*m}} (well-formed ones), "
                "on every tree of a family of small directory trees of depth up to 2 (quick) / 3 (thorough) over the names "
-               "{a, b, .h, ab}; checks A-D and R on every (pattern, tree), check E on every ordered pair of trees (quick: 24 trees in which every name occurs as a file, as an empty directory and as a directory with entries; thorough: these and a seeded sample of 16 more) per pattern")
+               "{a, b, .h, ab}; checks A-D and R on every (pattern, tree), checks A and S with three substitutions (an explicit star for every name, `?*` and `[ab]` for the first name) on every (pattern with names, tree), check E on every ordered pair of trees (quick: 24 trees in which every name occurs as a file, as an empty directory and as a directory with entries; thorough: these and a seeded sample of 16 more) per pattern")
 def compilers_and_filesystem(tier, seed):
     import concurrent.futures
     import multiprocessing
